@@ -165,8 +165,12 @@ def c06_post(merged, tier):
         tail = _binom_tail(N, k, 0.005)
         stats["binomial_tail_p0.005"] = tail
         if k / N > 0.005 and tail < 1e-5:
-            out.append({"oracle": "solved_rate", "sig": "solved_rate",
-                        "detail": {"N": N, "not_solved": k, "rate": k / N, "tail_probability_under_0.5pct": tail}})
+            # the signature carries the band of the observed rate, so that the recorded finding (0.5%..1.2% on the
+            # unchanged tree, see known_findings.json) does not hide a larger regression
+            band = "upto1.2pct" if k / N <= 0.012 else "above1.2pct"
+            out.append({"oracle": "solved_rate", "sig": f"solved_rate:{band}",
+                        "detail": {"N": N, "not_solved": k, "rate": k / N, "tail_probability_under_0.5pct": tail,
+                                   "not_solved_by_stratum": {n: c.get(f"stratum_{n}_not_solved", 0) for n in C06_CAL if n != "all"}}})
     strata = {}
     for name, (cm, cp) in C06_CAL.items():
         pre = "iters_hist_" if name == "all" else f"stratum_{name}_hist_"
@@ -199,7 +203,7 @@ PLAN["C06"] = {
     "assumptions": SOLVE_ASSUME + ["the claim is about family G as implemented in vkit::gen / c06::family_g, nothing wider", "envelope constants recorded in plan.py with their calibration run"],
     "min_nontrivial": 300,
     "post": c06_post,
-    "runs": runs([dict(MON16, budget=200)], [dict(MON16, budget=1200)]),
+    "runs": runs([dict(MON16, budget=200, scale=5.0)], [dict(MON16, budget=1200)]),
 }
 
 CONE_ASSUME = BASE_ASSUME + PSD_ASSUME + ["cone objects are driven through the `verif` re-exports of the crate's own cone types and traits"]
